@@ -614,12 +614,15 @@ class Engine:
                 env[dsts[0]] = dst
             return None
         evname = short if fn is not None else name
-        st.events.append(Event(evname, [simp(a) for a in args], st.mem))
+        ev = Event(evname, [simp(a) for a in args], st.mem)
+        st.events.append(ev)
         rets = sig[1]
         if len(rets) != len(dsts):
             raise Unsupported('call result arity mismatch: ' + name)
+        ev.rets = []
         for d, (t, _) in zip(dsts, rets):
             env[d] = self.fresh_bv('ret_' + evname, TY_BITS[t])
+            ev.rets.append(env[d])
         return None
 
 
